@@ -16,6 +16,8 @@ package rules
 //	         Create/Update/Apply/Delete methods (under tc.mutex)                        [c20_handlers.go]
 //	R-C20-5  a namespace leaves TrafficController.namespaces only when every entity map of it is
 //	         known empty (own probe per map) or drained, under tc.mutex                 [c20_namespace.go]
+//	R-C20-6  event maps and bookkeeping maps (registry/watcher entities) are never aliased   [c20_registry.go]
+//	R-C20-7  every snapshot received from configSyncChan reaches applyConfig, whole           [c20_registry.go]
 //
 // Verdict on today's tree: R-C20-3 is violated (genuine defect, triaged: a name whose kind
 // changes is filed under "updated"; Inherit type-asserts the old instance → recovered panic,
@@ -110,6 +112,8 @@ func c20(c *core.Ctx) string {
 	c20Diff(c)
 	c20Handlers(c)
 	c20Namespaces(c)
+	c20Aliasing(c)
+	c20Snapshots(c)
 	return "Static shape rules on the object lifecycle machinery: who may call lifecycle callbacks and that the wrappers recover every panic (whole-module call-site scan + path-sensitive panic exits); the registry diff as an exhaustive decision table over the abstract paths of one applyConfig iteration (facts: build error, predecessor found, Equals outcome, kind equality; events: stores to deleted/created/updated/entities); handler loops and TrafficController methods as typestate rules (lookup outcome → lifecycle wrapper → map store/removal, lock held). Not decided: exactly-once over whole snapshot histories (conjunction + induction is informal), what each kind's callbacks do, goroutine interleavings."
 }
 
